@@ -2,6 +2,7 @@ SPECIFICATION Spec
 CONSTANTS
  Hs = {h1, h2}
  Threads = 2
+ Pinned = FALSE
  Dev = {"held", "sync_remove"}
 INVARIANTS NeverStuck
 PROPERTY Terminates
